@@ -399,7 +399,8 @@ def norm(t):
     if d == 'expr':
         return ('comma', norm(ch[0]), norm(ch[1]))
     if d == 'identifier':
-        return classify(str(ch[0]))
+        # what the grammar calls an identifier stays one: a register-like text that the grammar did not classify as register is a difference
+        return ('id', str(ch[0]))
     if d == 'number':
         return ('num', str(ch[0]), str(ch[1]) if ch[1] else '')
     if d == 'float_number':
